@@ -57,6 +57,9 @@ func condName(v ssa.Value) (name string, flipped bool) {
 			if isNilConst(v) {
 				return "nil"
 			}
+			if str, ok := constString(v); ok {
+				return fmt.Sprintf("%q", str)
+			}
 			if u, ok := v.(*ssa.UnOp); ok && u.Op == token.MUL {
 				if fa, ok := u.X.(*ssa.FieldAddr); ok {
 					return fieldName(fa)
